@@ -251,7 +251,20 @@ def binary_cases(quick):
 
 def run_states(case):
     from mc import precip
-    r = precip.run_model(case, hooks=False)
+    pack = None
+    if case['system'] == 'bin':
+        # The binary growth law divides by (x_beta V_alpha / V_beta - x_alpha(R)).  With real databases x_alpha << x_beta wherever the
+        # precipitate is reported stable (Al-Zr: <= 0.03 against 0.24).  The stub's default stability limit (0.2) lies above
+        # x_beta V_alpha / V_beta for the large molar-volume ratios of this product (0.25 / 1.3 = 0.19): a size class in that window
+        # gets a growth rate of +inf, which is outside "the range in which the precipitate is stable".  The limit of the stub is
+        # therefore lowered to 60 % of x_beta V_alpha / V_beta; kawin then treats those classes as unstable (sentinel), as with a
+        # real backend.
+        cf = precip.cfg_full(case)
+        therm, names, elements = precip.make_thermo(cf, cf.get('faults'))
+        for nm, ph in therm.prec.items():
+            ph.xlim = min(ph.xlim, 0.6 * ph.xb / (cf['vm'] * precip.PHASE_PARAMS.get(nm, (1.0, 1.0))[1]))
+        pack = (therm, names, elements)
+    r = precip.run_model(case, hooks=False, therm_pack=pack)
     m, c, mon = r['model'], r['cfg'], r['monitor']
     d = m.pData
     P = len(m.phases)
@@ -383,6 +396,7 @@ def run(ctx):
                        "'curvature' driving force compared in value only for 0 <= s <= 0.1 with tolerance |s| |DF| (documented first-order method)",
                        'for the solution phase Cu4Ti only the parallel-tangent value is compared with g; the other methods are compared in sign and monotonicity',
                        'analytic backends (mc/synth_thermo.py) in the precipitation-state stage; constant aspect ratio for non-spherical shapes',
+                       'analytic binary: stability limit of the stub lowered to 0.6 x_beta V_alpha/V_beta (the binary growth law has a pole at x_alpha = x_beta V_alpha/V_beta)',
                        'states with Rcrit clamped to Rmin or with non-positive driving force are counted, not checked (as the property states)']
     bc, sc = binary_cases(quick), state_cases(quick)
     ctx.bounds = {'binary_cases': len(bc), 'systems': {k: {'T': v['T'], 'band_J_per_mol': v['band']} for k, v in BIN_SYSTEMS.items()},
